@@ -24,6 +24,7 @@ type InstrStats struct {
 	MapRangeSites     int            `json:"map_range_sites_rewritten"`
 	MapRangeSkipped   int            `json:"map_range_sites_left_unrewritten"`
 	SkippedWhy        []string       `json:"map_range_skipped_sites,omitempty"`
+	ReflectMapSites   int            `json:"reflect_map_iteration_sites_rewritten"`
 	UnseamedMapIter   int            `json:"unseamed_map_iteration_uses"`
 	UnseamedWhere     []string       `json:"unseamed_map_iteration_sites,omitempty"`
 	YieldSites        int            `json:"yield_sites_inserted"`
@@ -113,6 +114,7 @@ func Instrument(o instrOpts) (*InstrStats, error) {
 			_ = i
 			changed := false
 			n := rewriteMapRanges(p, f, rel, st)
+			n += rewriteReflectMapIteration(p, f, rel, st)
 			if n > 0 {
 				changed = true
 				st.SitesPerPackage[p.PkgPath] += n
@@ -213,6 +215,36 @@ func rewriteMapRanges(p *packages.Package, f *ast.File, rel string, st *InstrSta
 	return n
 }
 
+// rewriteReflectMapIteration puts reflect.Value.MapKeys and MapRange under the
+// order seam: v.MapKeys() -> simhook.ReflectMapKeys(v, site), v.MapRange() ->
+// simhook.ReflectMapRange(v, site).
+func rewriteReflectMapIteration(p *packages.Package, f *ast.File, rel string, st *InstrStats) int {
+	n := 0
+	astutil.Apply(f, nil, func(c *astutil.Cursor) bool {
+		call, ok := c.Node().(*ast.CallExpr)
+		if !ok || len(call.Args) != 0 {
+			return true
+		}
+		sel, ok := call.Fun.(*ast.SelectorExpr)
+		if !ok || (sel.Sel.Name != "MapKeys" && sel.Sel.Name != "MapRange") {
+			return true
+		}
+		obj := p.TypesInfo.Uses[sel.Sel]
+		if obj == nil || obj.Pkg() == nil || obj.Pkg().Path() != "reflect" {
+			return true
+		}
+		site := fmt.Sprintf("%s:%d", rel, p.Fset.Position(call.Pos()).Line)
+		c.Replace(&ast.CallExpr{
+			Fun:  &ast.SelectorExpr{X: ast.NewIdent("simhook"), Sel: ast.NewIdent("Reflect" + sel.Sel.Name)},
+			Args: []ast.Expr{sel.X, &ast.BasicLit{Kind: token.STRING, Value: strconv.Quote(site)}},
+		})
+		n++
+		st.ReflectMapSites++
+		return true
+	})
+	return n
+}
+
 func countUnseamed(p *packages.Package, f *ast.File, rel string, st *InstrStats) {
 	ast.Inspect(f, func(n ast.Node) bool {
 		call, ok := n.(*ast.CallExpr)
@@ -227,8 +259,6 @@ func countUnseamed(p *packages.Package, f *ast.File, rel string, st *InstrStats)
 		hit := false
 		if obj := p.TypesInfo.Uses[sel.Sel]; obj != nil && obj.Pkg() != nil {
 			switch obj.Pkg().Path() {
-			case "reflect":
-				hit = name == "MapRange" || name == "MapKeys"
 			case "maps", "golang.org/x/exp/maps":
 				hit = name == "Keys" || name == "Values" || name == "All"
 			}
